@@ -107,6 +107,14 @@ func (w *Walker) Walk(
 	w.allCancel = cancelFunc
 
 	// populate info map
+	// All nodes are registered before the first routine is started: a routine that
+	// completes looks up its dependants in nodeInfoMap (startNode/cancelNode), and a
+	// dependant that is not registered yet would never receive its ready message.
+	type registration struct {
+		node model.BuildNode
+		info *nodeInfo
+	}
+	var registrations []registration
 	for _, node := range w.graph.nodes {
 		if !node.GetIsSelected() {
 			// skip unselected targets
@@ -117,19 +125,23 @@ func (w *Walker) Walk(
 		readyCh := make(chan interface{}, 1)
 		cancelCh := make(chan interface{}, 1)
 
-		w.nodeInfoMap[node.GetLabel()] = &nodeInfo{
+		info := &nodeInfo{
 			done:   doneCh,
 			ready:  readyCh,
 			cancel: cancelCh,
 		}
+		w.nodeInfoMap[node.GetLabel()] = info
+		registrations = append(registrations, registration{node: node, info: info})
+	}
 
+	for _, reg := range registrations {
 		w.wait.Add(1)
 		// start all routines
-		go w.nodeRoutine(ctx, node, w.nodeInfoMap[node.GetLabel()])
+		go w.nodeRoutine(ctx, reg.node, reg.info)
 
 		// start all routines with no dependencies immediately
-		if len(w.graph.inEdges[node.GetLabel()]) == 0 {
-			w.startNode(node)
+		if len(w.graph.inEdges[reg.node.GetLabel()]) == 0 {
+			w.startNode(reg.node)
 		}
 	}
 
